@@ -4,7 +4,7 @@
 From Coq Require Import Arith Lia.
 From DC Require Import Disruptor.Pipeline.
 From Coq Require Import ZArith.
-From DC Require Disruptor.HB Disruptor.MultiPub Disruptor.PipeReplay Disruptor.MultiReplay Disruptor.Handlers Disruptor.MultiPipe Disruptor.MultiPipeReplay.
+From DC Require Disruptor.HB Disruptor.MultiPub Disruptor.PipeReplay Disruptor.MultiReplay Disruptor.Handlers Disruptor.MultiPipe Disruptor.MultiPipeReplay Disruptor.Slots Disruptor.SlotsProofs.
 
 (* in order, exactly once, no gaps: whenever a handler is about to handle a sequence, it is the successor of
    the last one it returned from (it starts at 1: see C04_seq0_never_delivered) *)
@@ -120,3 +120,20 @@ Print Assumptions C04_delivery_percursor_stale_reads.
 Print Assumptions C04_only_written_and_published.
 Print Assumptions C04_payload_intact.
 Print Assumptions C04_seq0_never_delivered.
+
+(* THE STORAGE ITSELF (Disruptor/Slots.v mirrors const_array_ring_buffer.rs: data[sequence & mask], mask = N - 1, unchecked access).
+   For every ring size the constructor accepts - exactly the powers of two - and every history of writes (get_mut) and reads
+   (get / get_mut) through ANY sequence numbers: no access is out of bounds and a read returns the value of the most recent write to a
+   sequence congruent modulo N (the default if none): what a handler is handed for sequence s is what was stored for s, as long
+   as the slot has not been given to s + N (which the pipeline theorems above exclude). *)
+Theorem C04_ring_storage_is_a_map_on_residues : forall k ops,
+  exists r, Slots.new (2 ^ k)%N = Some r /\ Slots.run r ops = Some (Slots.spec (2 ^ k)%N nil ops).
+Proof. exact SlotsProofs.fresh_ring_is_a_map_on_residues. Qed.
+
+Theorem C04_ring_constructor_accepts_exactly_the_powers_of_two :
+  (forall k, exists r, Slots.new (2 ^ k)%N = Some r /\ SlotsProofs.Inv k r) /\
+  (forall n r, Slots.new n = Some r -> exists k, n = (2 ^ k)%N /\ SlotsProofs.Inv k r).
+Proof. split; [exact SlotsProofs.new_inv|exact SlotsProofs.new_only_pow2]. Qed.
+
+Print Assumptions C04_ring_storage_is_a_map_on_residues.
+Print Assumptions C04_ring_constructor_accepts_exactly_the_powers_of_two.
